@@ -195,6 +195,57 @@ pub fn c04(tier: &str, seed: u64) -> Vec<Case> {
                 }
             }
         }
+        // writers that defer their work (std::io::BufWriter over a Vec, over a growable cursor, over fixed storage): when
+        // the call returns Ok the message is in the underlying storage, whole; when the storage is too small the call
+        // reports it - a message sitting in a buffer that is later dropped or fails to drain is a silent truncation
+        if i % 4 == 1 {
+            use std::io::BufWriter;
+            for cap in [0usize, 5, 8192, 100_000] {
+                for isc in [false, true] {
+                    let want = if isc { &comp } else { &plain };
+                    let pp = p.clone();
+                    let mut c = Case::oracle_only().tag("writer:buffered");
+                    watch("buffered writer");
+                    if isc {
+                        let mut w = BufWriter::with_capacity(cap, std::io::Cursor::new(Vec::new()));
+                        match std::panic::catch_unwind(std::panic::AssertUnwindSafe(|| pp.write_compressed_to(&mut w).is_ok())) {
+                            Err(_) => { c = c.fail("writer-panic", "buffered writer".into()); }
+                            Ok(false) => { c = c.fail("writer-refused", format!("a BufWriter of capacity {} over a growable cursor makes the compressing writer fail", cap)); }
+                            Ok(true) => { if w.get_ref().get_ref()[..] != want[..] { c = c.fail("writer-truncated", format!("write_compressed_to returned Ok through a BufWriter of capacity {} and the underlying storage holds {} of {} bytes", cap, w.get_ref().get_ref().len(), want.len())); } }
+                        }
+                    } else {
+                        let mut w = BufWriter::with_capacity(cap, Vec::new());
+                        match std::panic::catch_unwind(std::panic::AssertUnwindSafe(|| pp.write_to(&mut w).is_ok())) {
+                            Err(_) => { c = c.fail("writer-panic", "buffered writer".into()); }
+                            Ok(false) => { c = c.fail("writer-refused", format!("a BufWriter of capacity {} over a Vec makes the plain writer fail", cap)); }
+                            Ok(true) => { if w.get_ref()[..] != want[..] { c = c.fail("writer-truncated", format!("write_to returned Ok through a BufWriter of capacity {} and the underlying Vec holds {} of {} bytes", cap, w.get_ref().len(), want.len())); } }
+                        }
+                    }
+                    v.push(c);
+                    // fixed storage one byte short, and exactly fitting, behind the buffer
+                    for short in [1usize, 0] {
+                        if want.is_empty() { continue; }
+                        let mut storage = vec![0u8; want.len() - short];
+                        let pp = p.clone();
+                        let mut c = Case::oracle_only().tag("writer:buffered-fixed");
+                        let ok = {
+                            let mut w = BufWriter::with_capacity(cap, std::io::Cursor::new(&mut storage[..]));
+                            let r = std::panic::catch_unwind(std::panic::AssertUnwindSafe(|| if isc { pp.write_compressed_to(&mut w).is_ok() } else { pp.write_to(&mut w).is_ok() }));
+                            // dropping the BufWriter tries a last flush and ignores its failure: what counts is what the call said
+                            r
+                        };
+                        match (ok, short) {
+                            (Err(_), _) => { c = c.fail("writer-panic", "buffered writer over fixed storage".into()); }
+                            (Ok(true), 1) => { c = c.fail("writer-truncated", format!("the {} writer returned Ok through a BufWriter (capacity {}) over storage one byte too small", if isc { "compressing" } else { "plain" }, cap)); }
+                            (Ok(false), 0) => { c = c.fail("writer-refused", format!("the {} writer fails through a BufWriter (capacity {}) over storage of exactly the message length", if isc { "compressing" } else { "plain" }, cap)); }
+                            (Ok(true), _) => { if storage[..] != want[..] { c = c.fail("writer-differs", "buffered writer over exactly fitting storage leaves other bytes".into()); } }
+                            _ => {}
+                        }
+                        v.push(c);
+                    }
+                }
+            }
+        }
         if plain.len() > 1500 { continue; }
         // writer configurations
         let mut cfgs: Vec<(&str, usize, Vec<u8>, bool)> = vec![];
@@ -284,7 +335,7 @@ pub fn c07(tier: &str, seed: u64) -> Vec<Case> {
     if !thorough {
         // the quick tier keeps the first 1800 small packets and every large one
         let mut k = 0;
-        all.retain(|(_, tag)| { k += 1; k <= 1800 || tag == "big" || tag == "many-names" || tag == "boundary-16383" });
+        all.retain(|(_, tag)| { k += 1; k <= 1800 || tag == "big" || tag == "many-names" || tag == "many-suffixes" || tag == "boundary-16383" });
     }
     for (p, tag) in all {
         if tag == "nsec-unordered" { continue; }
